@@ -57,3 +57,33 @@ CONFIGS["C36"] = dict(
     required_probes=["crash_points", "torn-write"],
     required_probes_quick=["crash_points", "torn-write"],
 )
+
+CACHES_EXPORT = ("props/common/caches_export.go", "internal/caches/zz_verifsim_export.go")
+
+CONFIGS["C23"] = dict(
+    prop="C23", engine="oauth-race", pkg="internal/server/oauth/authserver", harness="C23",
+    level="exploration",
+    level_text="seeded search over schedules: 2-6 concurrent token requests (real authserver.TokenHandler, real caches) "
+               "presenting the same authorization code or refresh token, interleaved by the seeded scheduler at every lock "
+               "acquisition (so the gap between cache lookup and deletion is explored by construction), plus PKCE verifier "
+               "variants and rotated refresh tokens over three phases; oracle: per credential at most one 200 response "
+               "carrying an access token, and PKCE success only with the matching verifier. Also run under the race detector.",
+    technique="deterministic simulation: seeded scheduler over concurrent request tasks, history oracle (at-most-once)",
+    rewrite=dict(dirs=ALL_INTERNAL),
+    extra_files=[CACHES_EXPORT],
+    race="also",
+    quick=dict(runs=6000, per_proc=300, budget_s=240),
+    thorough=dict(runs=600000, per_proc=3000, budget_s=1500),
+    race_quick=dict(runs=600, per_proc=75, budget_s=150),
+    race_thorough=dict(runs=30000, per_proc=500, budget_s=900),
+    det_seeds=32,
+    rule="seeded batches of token requests in 3 phases (phase 0: code exchanges mostly of one code with verifier/client/"
+         "redirect variants; phases 1-2: refreshes of pre-issued, freshly issued and rotated refresh tokens), one task per "
+         "request; non-trivial = some credential presented by >=2 requests; distinct = distinct (scheduler decision sequence, "
+         "per-request outcome) hash",
+    real=["internal/server/oauth/authserver TokenHandler, consumeCode/consumeRefreshToken, verifyPKCE, JWT creation (real ECDSA key)",
+          "internal/caches incl. sweepers", "internal/router.Session"],
+    stubbed=["time: synctest fake clock", "sync: scheduling shim", "bcrypt cost of the confidential client's secret hash = MinCost (harness-made fixture)"],
+    assumptions=["requests enter at TokenHandler (the router in front of it is not part of this engine)"],
+    required_probes=["credential_presented_concurrently_or_repeatedly", "runs_with_concurrent_requests", "successful_exchanges"],
+)
